@@ -29,7 +29,7 @@ RULE = (
 )
 ASSUMPTIONS = [
     "for the ambiguous grammar only syntax-level statements are judged (check(str) parses to the first tree)",
-    "repair/mutate: returning Nothing / being cut by the wall-clock cap is allowed; a returned tree must be grammar-valid and satisfy the constraint (reference semantics)",
+    "repair/mutate: returning Nothing / being cut by the wall-clock cap is allowed; a returned tree must be grammar-valid and satisfy the constraint (reference semantics); an exception of repair on an INVALID input or of mutate returns nothing and is counted, not judged (what the embedded solver may raise is C02's statement); an exception of repair on a valid input is a violation",
 ]
 TASKS_PER_CHILD = 3
 SEED = 1 + int(os.environ.get("VERIF_SEED", "0") or 0)
@@ -201,7 +201,12 @@ def repair_chunk(r, name, ci, tier):
                 r.caps[f"{method}_20s_cap"] += 1
                 continue
             except Exception as e:  # noqa
-                r.viol(f"{method}/raises/{common.exc_key(e)}", f"{method}({w!r}) raised {type(e).__name__}: {str(e)[:100]} for {text!r}", case)
+                if method == "repair" and ok:
+                    # "repair returns an already valid input unchanged"
+                    r.viol(f"{method}/raises/{common.exc_key(e)}", f"{method}({w!r}) raised {type(e).__name__}: {str(e)[:100]} for {text!r} although the input is valid", case)
+                else:
+                    # nothing was returned: what the embedded solver may raise is C02's statement, not C18's
+                    r.outcomes[f"{method}-raised:{common.exc_key(e)}"] += 1
                 continue
             r.transitions += len(ex.points) + 1
             if method == "repair":
